@@ -1,6 +1,9 @@
 package e4
 
-import "fmt"
+import (
+	"fmt"
+	"strings"
+)
 
 // Run dispatches on the property.
 func (c *Ctx) Run(prop, tier string) {
@@ -24,6 +27,9 @@ func (c *Ctx) Replay(prop, wit string) error {
 	case "C07":
 		return c.ReplayC07(wit)
 	case "C03", "C08":
+		if prop == "C08" && strings.Contains(wit, "\"unrolled\"") {
+			return c.replayDiff(wit)
+		}
 		return c.replaySrc(prop, wit)
 	case "C06":
 		return c.replay06(wit)
